@@ -206,7 +206,7 @@ func tname(t *Term) string { return fmt.Sprintf("t!%d", t.id) }
 // non-leaf subterms first.
 func (s *Session) ref(t *Term) string {
 	switch t.Op {
-	case "true", "false", "int", "fp":
+	case "true", "false", "int", "fp", "real":
 		return leafString(t)
 	case "var":
 		if !s.isDeclared(t.Name) {
@@ -701,7 +701,7 @@ func Script(asserts []*Term, timeoutMs int, forCVC5 bool) string {
 	var emit func(t *Term) string
 	emit = func(t *Term) string {
 		switch t.Op {
-		case "true", "false", "int", "fp":
+		case "true", "false", "int", "fp", "real":
 			return leafString(t)
 		case "var":
 			return quote(t.Name)
